@@ -1,5 +1,6 @@
 import PallasVerif.Model.Byron
 import PallasVerif.Proofs.CborContainers
+import PallasVerif.Proofs.SkipParse
 /-!
   CRC-32 facts (register stays below 2^32, every step is injective, hence two messages that differ in
   exactly one byte have different checksums) and the `ByronAddress` codec round trip.
@@ -230,5 +231,70 @@ theorem decode_fromDecoded (p : AddressPayload) (hw : p.wf) : (fromDecoded p).de
   have := addressPayload_rt p hw []
   simp only [List.append_nil] at this
   simp [ByronAddress.decode, fromDecoded, ofPayloadBytes, decodeTop, this]
+
+/-! ## every accepted encoding of the address: any head width for the array, the tag, the byte string
+    and the checksum -/
+
+/-- a well-formed definite head of major type `m` -/
+def headOk (h : Head) (m : Nat) : Prop := h.wf = true ∧ h.major = m ∧ h.ai ≠ 31
+
+theorem tag_head (h : Head) (rest : Bytes) (hh : headOk h 6) : tag (h.encode ++ rest) = .ok h.val rest := by
+  obtain ⟨hw, hm, hai⟩ := hh
+  obtain ⟨hu, _, h27⟩ := unsigned_head h rest hw hai
+  have hmaj := initByte_major h.major h.ai (by omega) (by omega)
+  have hinf := initByte_info h.major h.ai (by omega) (by omega)
+  simp only [Head.encode, List.cons_append, tag, hmaj, hinf]
+  rw [if_neg (by omega)]; exact hu
+
+theorem bytes_head (h : Head) (bs rest : Bytes) (hh : headOk h 2) (hl : h.val = bs.length) :
+    Minicbor.bytes (h.encode ++ (bs ++ rest)) = .ok bs rest := by
+  obtain ⟨hw, hm, hai⟩ := hh
+  obtain ⟨hu, _, h27⟩ := unsigned_head h (bs ++ rest) hw hai
+  have hmaj := initByte_major h.major h.ai (by omega) (by omega)
+  have hinf := initByte_info h.major h.ai (by omega) (by omega)
+  simp only [Head.encode, List.cons_append, Minicbor.bytes, hmaj, hinf]
+  rw [if_neg (by omega), hu]
+  simp [hl, readSlice_append]
+
+/-- `u8()..u64()` on an unsigned head of any width: the value if it fits, `overflow` otherwise -/
+theorem uintN_head (bits : Nat) (h : Head) (rest : Bytes) (hh : headOk h 0) :
+    uintN bits (h.encode ++ rest) = if h.val < 2 ^ bits then .ok h.val rest else .err .overflow := by
+  obtain ⟨hw, hm, hai⟩ := hh
+  obtain ⟨hu, _, h27⟩ := unsigned_head h rest hw hai
+  have hb := initByte_toNat h.major h.ai (by omega) (by omega)
+  simp only [Head.encode, List.cons_append, uintN, hb]
+  rw [if_pos (by omega)]
+  have : h.major * 32 + h.ai = h.ai := by omega
+  rw [this, hu]; rfl
+
+/-- the address bytes written with arbitrary (well-formed, definite) heads -/
+def encWith (ha ht hb hc : Head) (payload : Bytes) : Bytes :=
+  ha.encode ++ (ht.encode ++ (hb.encode ++ (payload ++ hc.encode)))
+
+theorem byronAddress_dec_encWith (ha ht hb hc : Head) (payload r : Bytes)
+    (h1 : headOk ha 4) (h1v : ha.val = 2) (h2 : headOk ht 6) (h3 : headOk hb 2) (h3v : hb.val = payload.length)
+    (h4 : headOk hc 0) :
+    ByronAddress.dec (encWith ha ht hb hc payload ++ r) =
+      if hc.val < 2 ^ 32 then .ok ⟨payload, hc.val⟩ r else .err .overflow := by
+  have e0 : TagWrap.dec cBytes (ht.encode ++ (hb.encode ++ (payload ++ (hc.encode ++ r)))) = .ok payload (hc.encode ++ r) := by
+    simp [TagWrap.dec, cBytes, tag_head ht _ h2, bytes_head hb payload _ h3 h3v]
+  have e1 := uintN_head 32 hc r h4
+  have ea : array (ha.encode ++ (ht.encode ++ (hb.encode ++ (payload ++ (hc.encode ++ r))))) =
+      .ok (some 2) (ht.encode ++ (hb.encode ++ (payload ++ (hc.encode ++ r)))) := by
+    have := seqHead_head 4 ha (ht.encode ++ (hb.encode ++ (payload ++ (hc.encode ++ r)))) h1.1 h1.2.2 h1.2.1
+    rw [h1v] at this
+    simpa [array, Head.encode] using this
+  have hlen : 3 ≤ (ht.encode ++ (hb.encode ++ (payload ++ (hc.encode ++ r)))).length := by
+    have := Head.encode_length_pos ht; have := Head.encode_length_pos hb; have := Head.encode_length_pos hc
+    simp only [List.length_append]; omega
+  simp only [ByronAddress.dec, encWith, List.append_assoc, structArray2, ea, Res.andThen_ok]
+  generalize hL : (ht.encode ++ (hb.encode ++ (payload ++ (hc.encode ++ r)))).length = L at hlen
+  obtain ⟨f, rfl⟩ : ∃ f, L = f + 3 := ⟨L - 3, by omega⟩
+  simp only [fieldsDef, Nat.zero_add, e0, Res.andThen_ok]
+  simp only [show ¬ (0 ≥ 2) by omega, if_false, if_true, show ¬ (0 + 1 ≥ 2) by omega, show ¬ ((0 : Nat) + 1 = 0) by omega,
+    show (0 + 1 = 1) by omega, Minicbor.u32, e1]
+  by_cases hv : hc.val < 2 ^ 32
+  · simp [hv, fieldsDef]
+  · simp [hv]
 
 end PallasVerif.Byron
